@@ -122,7 +122,8 @@ void SmodelsInput::matchSum(RuleBuilder& rule, bool weights) {
 	uint32_t len = matchPos();
 	uint32_t neg = matchPos();
 	if (!weights) { std::swap(len, bnd); std::swap(bnd, neg); }
-	rule.startSum(bnd);
+	require(bnd <= static_cast<uint32_t>(INT_MAX), "bound out of range");
+	rule.startSum(static_cast<Weight_t>(bnd));
 	for (uint32_t i = 0; i != len; ++i) {
 		Lit_t p = lit(matchAtom());
 		if (neg) { p *= -1; --neg; }
@@ -130,7 +131,7 @@ void SmodelsInput::matchSum(RuleBuilder& rule, bool weights) {
 	}
 	if (weights) {
 		for (WeightLit_t* x = rule.wlits_begin(), *end = x + len; x != end; ++x) {
-			x->weight = (Weight_t)matchPos("non-negative weight expected");
+			x->weight = (Weight_t)matchPos(static_cast<unsigned>(INT_MAX), "non-negative weight expected");
 		}
 	}
 }
@@ -189,7 +190,7 @@ bool SmodelsInput::readSymbols() {
 	StringSpan n0, n1;
 	SymTab::Heuristic heu;
 	std::vector<SymTab::Heuristic> doms;
-	for (Lit_t atom; (atom = (Lit_t)matchPos()) != 0;) {
+	for (Lit_t atom; (atom = (Lit_t)matchPos(atomMax, "atom expected")) != 0;) {
 		name.clear();
 		stream()->get();
 		for (char c; (c = stream()->get()) != '\n';) {
@@ -229,7 +230,7 @@ bool SmodelsInput::readSymbols() {
 
 bool SmodelsInput::readCompute(const char* comp, bool val) {
 	require(match(comp) && stream()->get() == '\n', "compute statement expected");
-	for (Lit_t x; (x = (Lit_t)matchPos()) != 0;) {
+	for (Lit_t x; (x = (Lit_t)matchPos(atomMax, "atom expected")) != 0;) {
 		if (val) { x = neg(x); }
 		out_.rule(Head_t::Disjunctive, toSpan<Atom_t>(), toSpan(&x, 1));
 	}
@@ -238,7 +239,7 @@ bool SmodelsInput::readCompute(const char* comp, bool val) {
 
 bool SmodelsInput::readExtra() {
 	if (match("E")) {
-		for (Atom_t atom; (atom = matchPos()) != 0;) {
+		for (Atom_t atom; (atom = matchPos(atomMax, "atom expected")) != 0;) {
 			out_.external(atom, Value_t::Free);
 		}
 	}
